@@ -824,7 +824,17 @@ func (s *Store) Open() (retErr error) {
 	}
 
 	// Instantiate the Raft system.
-	ra, err := raft.NewRaft(raftConfig, NewFSM(s), s.raftLog, s.raftStable, s.snapshotStore, s.raftTn)
+	// Every new snapshot, whether taken locally or received from the leader, means the clean
+	// snapshot marker no longer describes the newest snapshot in the store. So remove the marker
+	// before Raft gets a sink. The marker is written again once the SQLite file is known to match
+	// the newest snapshot, after a successful Persist or Restore.
+	raftSnapshots := &markerInvalidatingSnapshotStore{
+		SnapshotStore: s.snapshotStore,
+		invalidate: func() error {
+			return fsutil.RemoveFile(s.cleanSnapshotPath)
+		},
+	}
+	ra, err := raft.NewRaft(raftConfig, NewFSM(s), s.raftLog, s.raftStable, raftSnapshots, s.raftTn)
 	if err != nil {
 		return fmt.Errorf("creating the raft system failed: %s", err)
 	}
